@@ -210,7 +210,8 @@ func truncateString(s string, maxLen int, pos int) string {
 	}
 
 	// If position fits in the first part, truncate from end
-	if pos0 <= maxLen-3 {
+	// (the first part is s[:maxLen-3], so index maxLen-3 itself is already cut off)
+	if pos0 < maxLen-3 {
 		return s[:maxLen-3] + "..."
 	}
 
@@ -252,8 +253,8 @@ func calculateDisplayColumn(originalLine string, originalPos, maxLen int) int {
 		pos0 = len(originalLine) - 1
 	}
 
-	// If position fits in first part
-	if pos0 <= maxLen-3 {
+	// If position fits in first part (must mirror truncateString)
+	if pos0 < maxLen-3 {
 		return originalPos
 	}
 
